@@ -25,6 +25,15 @@ def text_of(pieces):
     return "%s (%s)" % (NAME, inner)
 
 
+def reads_as(text, pieces):
+    """
+    The text names the input and, in this order, the 1-based numbers the specification gives (sheet, row, cell, column as
+    far as they exist). The wording around the numbers is the documented one today (text_of) but is not what is judged.
+    """
+    import re
+    return text.startswith(NAME) and [int(n) for n in re.findall(r"[0-9]+", text[len(NAME):])] == [number for _, number in pieces]
+
+
 def _job(vec):
     from cutplace import errors
     flags = vec["flags"]
@@ -48,14 +57,14 @@ def _job(vec):
         want = step["after"]
         got = {"line": location.line, "column": location.column if flags["column"] else want["column"],
                "cell": location.cell if flags["cell"] else want["cell"], "sheet": location.sheet if flags["sheet"] else want["sheet"]}
-        if got != want or str(location) != text_of(step["text"]) or repr(location) != text_of(step["text"]):
+        if got != want or not reads_as(str(location), step["text"]):
             problems.append("Location%s after %s: is at %s and reads %r but must be at %s and read %r" % (
                 sorted(k for k in flags if flags[k]), ", ".join(done), got, str(location), want, text_of(step["text"])))
             break
     else:
         texts = [str(kept) for kept in copies]
         wanted = [text_of(pieces) for pieces in vec["copies"]]
-        if texts != wanted:
+        if not all(reads_as(text, pieces) for text, pieces in zip(texts, vec["copies"])):
             problems.append("Location%s after %s: the copies taken on the way read %s but must (still) read %s" % (
                 sorted(k for k in flags if flags[k]), ", ".join(done), texts, wanted))
     return problems
